@@ -145,6 +145,14 @@ def rand_table(r, big=False):
         w = camel(r, 1)
         rows.append([r.choice(sources), "EventNow" + w, r.choice(states), "OnGo", none_sp()])
         rows.append([r.choice(sources), "Now" + w, none_sp(), "OnGoEvent", r.choice(["None", "Guard" + w])])
+    if r.random() < 0.15:
+        # (state, event) pairs whose concatenations coincide: (Door, OpenRequest) / (DoorOpen, Request); the first pair fires
+        # unconditionally, the second must still have its own rows
+        w1, w2, w3 = "State" + camel(r, 1), camel(r, 1), camel(r, 1)
+        if len({w1, w1 + w2, w2 + w3, w3} | taken) == len(taken) + 4:
+            rows.append([sources[0], w2 + w3, w1, none_sp(), none_sp()])        # (reachable from the initial state)
+            rows.append([w1, w2 + w3, w1 + w2, r.choice(actions + [none_sp()]), none_sp()])
+            rows.append([w1 + w2, w3, r.choice([w1, none_sp()]), r.choice(actions), r.choice(guards + [none_sp()]) if guards else none_sp()])
     return rows
 
 
